@@ -281,6 +281,8 @@ pub struct ConnEvent {
     pub state: String,
     /// error with which the task ends ("none" for a clean end)
     pub error: String,
+    /// "vsock-buf": (bytes queued for the reader, reassembly messages, reassembly bytes)
+    pub buf: (u64, u64, u64),
 }
 
 thread_local! {
@@ -295,7 +297,7 @@ pub fn take_conn_events() -> Vec<ConnEvent> {
 fn install_observer() {
     librqbit_utp::verif_hooks::set_observer(Some(Box::new(|ev: &str| {
         let t_us = T0.with(|t| t.get()).map(|t0| (tokio::time::Instant::now() - t0).as_micros() as u64).unwrap_or(0);
-        let mut e = ConnEvent { ord: app::next_ord(), t_us, kind: String::new(), remote: String::new(), id: 0, state: String::new(), error: String::new() };
+        let mut e = ConnEvent { ord: app::next_ord(), t_us, kind: String::new(), remote: String::new(), id: 0, state: String::new(), error: String::new(), buf: (0, 0, 0) };
         let mut it = ev.splitn(2, ' ');
         e.kind = it.next().unwrap_or("").to_string();
         let rest = it.next().unwrap_or("");
@@ -304,7 +306,7 @@ fn install_observer() {
         e.error = err.to_string();
         for kv in head.split(' ') {
             if let Some((k, v)) = kv.split_once('=') {
-                match k { "remote" => e.remote = v.to_string(), "id" => e.id = v.parse().unwrap_or(0), "state" => e.state = v.to_string(), _ => {} }
+                match k { "remote" => e.remote = v.to_string(), "id" => e.id = v.parse().unwrap_or(0), "state" => e.state = v.to_string(), "rxq" => e.buf.0 = v.parse().unwrap_or(0), "ooq_msgs" => e.buf.1 = v.parse().unwrap_or(0), "ooq_bytes" => e.buf.2 = v.parse().unwrap_or(0), _ => {} }
             }
         }
         CONN_EVENTS.with(|c| c.borrow_mut().push(e));
